@@ -245,7 +245,13 @@ Definition check_platform (c : cfg) (plats : list string) : bool :=
   || existsb (fun p => mem (lower p) (c_platform_tags c)) plats
   || existsb (manylinux_compatible c) plats.
 
-Definition check_abi (c : cfg) (abi : string) : bool := mem abi (c_abi_tags c).
+(* _check_abi_compatibility: since c54d5f0 the ABI field is a PEP 425 compressed tag set
+   (gen: abi_test_compressed); before, it was compared as one string *)
+Definition dot : ascii := "."%char.
+Definition check_abi (c : cfg) (abi : string) : bool :=
+  if abi_test_compressed
+  then existsb (fun t => String.eqb t "none" || mem t (c_abi_tags c)) (split_char dot abi)
+  else mem abi (c_abi_tags c).
 
 (* ---------------------------------------------------------------- candidates *)
 
@@ -276,10 +282,17 @@ Definition plat_score (c : cfg) (plats : list string) : Z :=
   let s := fold_left (plat_step c) plats (-1)%Z in
   if (0 <? s)%Z then (s + Z.of_nat (List.length plats))%Z else s.
 
+(* max((ABI_TAGS.index(tag) for tag in abi.split(".") if tag in ABI_TAGS), default=0) since c54d5f0
+   (gen: abi_score_compressed); ABI_TAGS.index(abi) / ValueError -> 0 before *)
 Definition abi_score (c : cfg) (abi : option string) : Z :=
   match abi with
   | None => 0%Z
-  | Some a => match index_of a (c_abi_tags c) with Some i => i | None => 0%Z end
+  | Some a =>
+      if abi_score_compressed
+      then fold_left Z.max
+             (flat_map (fun t => match index_of t (c_abi_tags c) with Some i => [i] | None => [] end)
+                       (split_char dot a)) 0%Z
+      else match index_of a (c_abi_tags c) with Some i => i | None => 0%Z end
   end.
 
 Definition extra_score (fn : option string) : Z :=
@@ -368,7 +381,6 @@ Definition eligible (c : cfg) (k : cand) : bool :=
 
 (* ---------------------------------------------------------------- wheel file name -> tag sets *)
 
-Definition dot : ascii := "."%char.
 Definition tagset (field : string) : list string := dedup (split_char dot field).
 
 Definition wheel_cand (id : N) (v : version) (build pyf abif platf : string) (fn : string) : cand :=
